@@ -36,6 +36,15 @@ theorem C06_pages_prefix {α : Type} (l : List α) (n : Nat) (k : Nat) :
     simp only [List.map_cons, List.map_nil, List.flatten_cons, List.flatten_nil, List.append_nil]
     rw [Nat.succ_mul, List.take_add]
 
+/-- when the rows are pairwise distinct (ids of an answer are: `C06_answer`), consecutive pages share no row -/
+theorem C06_pages_disjoint {α : Type} (l : List α) (off a b : Nat) (hn : l.Nodup) :
+    ∀ x ∈ (l.drop off).take a, x ∉ (l.drop (off + a)).take b := by
+  have h : ((l.drop off).take a ++ (l.drop (off + a)).take b).Nodup := by
+    rw [take_drop_tile]
+    exact List.Nodup.sublist ((List.take_sublist _ _).trans (List.drop_sublist _ _)) hn
+  intro x hx hq
+  exact (List.nodup_append.mp h).2.2 x hx x hq rfl
+
 /-- non-vacuity: the hypotheses are met by two pages of a five-row answer, and the pages are the expected ones -/
 example : ∃ p q, pageRepaired [1, 2, 3, 4, 5] ((1 : Nat) : Int) ((2 : Nat) : Int) = .ok p ∧
     pageRepaired [1, 2, 3, 4, 5] ((1 + 2 : Nat) : Int) ((2 : Nat) : Int) = .ok q ∧
